@@ -952,9 +952,11 @@ def deform(rng, kind, d):
         return "ranges:none-and-empty"
 
     def do_tbs(l):
+        # (a repeated key cannot be built: the dict-like containers collapse it at construction;
+        #  repeated keys are exercised on the reader side by the byte-level streams)
         if l:
-            l.append([l[0][0], l[0][1], b"dup"])
-            return "tbs:duplicate-key"
+            l[0][2] = l[0][2] + b"\x01"      # odd/changed payload only
+            return "tbs:payload-grown"
         return None
 
     def do_rec(r):
@@ -1055,8 +1057,8 @@ def deform(rng, kind, d):
         tag = do_lami(d)
     elif kind == "resources":
         if d:
-            d.append([d[0][0], d[0][1], b"", b"dup"])
-            tag = "resources:duplicate-key"
+            d[0][3] = d[0][3] + b"\x01"
+            tag = "resources:payload-grown"
     elif kind == "res":
         c = rng.randrange(2)
         if c == 0:
@@ -1072,8 +1074,8 @@ def deform(rng, kind, d):
             d[3] = [d[3][0] or [0, None, None], [None, 0, 128], []]
             tag = "psd:empty-glmi-tiny-image"
         elif c == 1 and d[2]:
-            d[2].append([d[2][0][0], d[2][0][1], b"", b"dup"])
-            tag = "resources:duplicate-key"
+            d[2][0][3] = d[2][0][3] + b"\x01"
+            tag = "resources:payload-grown"
         else:
             tag = do_lami(d[3])
     return None if tag is None else (tag, d)
